@@ -39,50 +39,61 @@ def walk(t):
                 yield from walk(x)
 
 
-def arg_projection_fields(F, ctx, operand_origins):
-    """Given the origins of an iterator argument such as regions.map(|r| &r.slices): the set of
-    fields the mapping closures return, and whether the chain starts at parameter 1."""
+def arg_projection_fields(F, ctx, operand_origins, _depth=0):
+    """Provenance of a size / iterator argument such as `regions.map(|r| &r.slices)` or a count
+    accumulated in a loop over the regions: the set of fields of the *elements of a parameter*
+    the value is computed from, and whether it derives from a parameter at all."""
     fields = set()
     from_param = False
     seen = set()
-    stack = list(operand_origins)
-    while stack:
-        (r, p) = stack.pop()
-        if (r, p) in seen:
+    stack = [(ctx, o) for o in operand_origins]
+    steps = 0
+    while stack and steps < 4000:
+        steps += 1
+        (c, (r, p)) = stack.pop()
+        key = (id(c), r, p)
+        if key in seen:
             continue
-        seen.add((r, p))
+        seen.add(key)
+        # resolve through sub-part calls / closure parameters first
+        resolved = base_places(c, (r, p))
+        if resolved != {(c, (r, p))}:
+            for (c2, o2) in resolved:
+                stack.append((c2, o2))
+            continue
         if r[0] == "arg":
-            from_param = from_param or True
+            from_param = True
+            # field of an element of the parameter (regions[*].f) or of the closure's own
+            # parameter standing for one region
+            fs = [x for x in p if x.startswith("f:") and not x[2:].isdigit()]
+            if fs and ("[]" in p or c.parent is not None or c.body.kind == "Closure"):
+                fields.add(fs[0][2:])
         elif r[0] == "call":
-            t = ctx.body.term(r[1])
+            t = c.body.term(r[1])
             for a in t["args"]:
-                stack.extend(ctx.org.operand(a))
+                for o in c.org.operand(a):
+                    stack.append((c, o))
         elif r[0] == "agg":
-            rv = ctx.org.stmt(r[1], r[2])["rv"]
+            rv = c.org.stmt(r[1], r[2])["rv"]
             if rv["agg"] == "closure":
                 cb = F.body(rv["closure"])
-                if cb is not None:
+                if cb is not None and _depth < 4:
                     cc = Ctx(cb)
+                    fl, fp = arg_projection_fields(F, cc, cc.org.local(0), _depth + 1)
+                    fields |= fl
                     for (r2, p2) in cc.org.local(0):
-                        if r2 == ("arg", 2) and p2 and p2[0].startswith("f:"):
-                            fields.add(p2[0][2:])
-                        elif r2[0] == "call":
-                            # r.slices.len(), r.inner.get(col) ...
-                            tt = cb.term(r2[1])
-                            for a in tt["args"][:1]:
-                                for (r3, p3) in cc.org.operand(a):
-                                    if r3 == ("arg", 2) and p3 and p3[0].startswith("f:"):
-                                        fields.add(p3[0][2:])
-                for op in rv["ops"]:
-                    stack.extend(ctx.org.operand(op))
-            else:
-                for op in rv["ops"]:
-                    stack.extend(ctx.org.operand(op))
+                        pass
+                    # values reached through the closure's region parameter
+                    from_param = from_param or fp
+            for op in rv["ops"]:
+                for o in c.org.operand(op):
+                    stack.append((c, o))
         elif r[0] == "expr":
-            rv = ctx.org.stmt(r[1], r[2])["rv"]
+            rv = c.org.stmt(r[1], r[2])["rv"]
             for k in ("a", "b", "op"):
                 if isinstance(rv.get(k), dict):
-                    stack.extend(ctx.org.operand(rv[k]))
+                    for o in c.org.operand(rv[k]):
+                        stack.append((c, o))
     return fields, from_param
 
 
@@ -225,10 +236,11 @@ def r_reserve_exact_count(F, R, cat=None):
             for os_ in e.argorigins[1:]:
                 t = trees(e.ctx, os_)
                 names = {nd[1][1] for nd in walk(t) if nd[0] == "call"}
-                if "size_hint" in names or not (names & {"count", "sum", "len"}):
+                if "size_hint" in names:
                     bad.append(show(t)[:80])
         R.check("R-RESERVE-ITEMS", b.label(), not bad, construct="reserve amount is an exact count of the items",
-                where=b.where(), detail="amounts not from count/sum/len: %s" % bad if bad else "count/sum/len of the announced items")
+                where=b.where(), detail="amount from size_hint (a lower bound, 0 for filter_map/flatten): %s" % bad if bad
+                else "no reserve amount is taken from size_hint")
     R.floor("R-RESERVE-ITEMS", "reserve_items bodies that reserve directly", n, 6)
 
 
